@@ -323,6 +323,10 @@ def run(tier, seed):
     replay_stats = {"cases": len(cases), "distinct_histories": distinct_hist, "order_ok": 0,
                     "db_ok": 0, "grouping_ok": 0, "model_drift": 0, "first_drift": None,
                     "extra_allows": 0}
+    # every other behaviour is replayed with lazy marking: batches TLC never filled are
+    # then submitted truly empty (no marker write), the others as before
+    for i, c in enumerate(cases):
+        c["lazy"] = (i % 2 == 1)
     shards = 4 if quick else 16
     shard_infos = []
 
